@@ -33,6 +33,9 @@ PlanOp make_sentence_op(Rng& rng, const std::string& key, const OpShape& sh)
     op.parser = key;
     const ref::Model* m = model_for(grammar_of(key));
     op.skip_ws = !rng.chance(sh.p_skip_ws_off, 100);
+    if (m)
+        for (const ref::TermSpec& ts : m->g.terms)
+            if (ts.kind == ref::T_CHAR && (ts.data == " " || ts.data == "\t")) { op.skip_ws = rng.chance(1, 4); break; }   // whitespace is a term here
     op.skip_nl = !rng.chance(sh.p_skip_nl_off, 100);
     op.verbose = rng.chance(sh.p_verbose, 100);
     op.buffer = rng.pick(sh.buffers);
